@@ -583,7 +583,7 @@ func soloAnswers(cfg, of spec) (ext, bool, string) {
 type step struct {
 	e   ext
 	err error
-	ok  bool                // Accepted() flag after the call
+	ok  bool               // Accepted() flag after the call
 	p   wsflate.Parameters // Accepted() parameters after the call
 }
 
@@ -759,7 +759,11 @@ func TestListsPairs(t *testing.T) {
 	if len(alpha) != 40 {
 		t.Fatalf("sub-alphabet has %d offers", len(alpha))
 	}
-	foreign := item{El: ext{"x-webkit-deflate-frame", []kv{{kSMWB, "99"}}}}
+	foreigns := []item{
+		{El: ext{"x-webkit-deflate-frame", []kv{{kSMWB, "99"}}}},
+		{El: ext{"permessage-deflate2", []kv{{kCMWB, ""}}}},
+		{El: ext{"permessage-deflat", nil}},
+	}
 	var n, both, one, none int64
 	cfgs := listConfigs()
 	for ci, cfg := range cfgs {
@@ -778,6 +782,7 @@ func TestListsPairs(t *testing.T) {
 		for i, a := range alpha {
 			for j, b := range alpha {
 				items := []item{pmd(a, i+j), pmd(b, j)}
+				foreign := foreigns[(i+2*j+ci)%len(foreigns)]
 				switch (i + j + ci) % 4 {
 				case 0:
 					items = []item{foreign, items[0], items[1]}
